@@ -92,7 +92,7 @@ func gppWorkload() {
 		gppCase(s, fmt.Sprintf("special|%d", i))
 	}
 	// seeded
-	n := r.Pick(4000, 80000)
+	n := r.Pick(30000, 500000)
 	for t := 0; t < n; t++ {
 		cl := rng.IntN(len(gen.ClassNames)+1) - 1
 		ln := []int{0, 1, 7, 8, 9, 15, 16, 17, rng.IntN(64), rng.IntN(300)}[rng.IntN(10)]
